@@ -1,7 +1,7 @@
 // ---- specs/driver.rs: the reply path of one dispatched request (src/cln_plugin/mod.rs) ---------
 //@ fn cln_plugin::PluginDriver::dispatch_one#reply
 //@ implicit [C06,C17]
-//@ ensures#exactly_one_reply_with_the_request_id [C17,C06]
+//@ ensures#exactly_one_reply_with_the_request_id [C17,C06,C13,C12,C11,C07]
 //    when the handler has finished, exactly one reply carrying this request's id is handed to the
 //    writer (unless the writer is gone): the result on success, the error object otherwise
       !plugin.sender.closed() ==> (final(q).len() == old(q).len() + 1
